@@ -158,7 +158,11 @@ static void lt_remove(void *c, int a, int b, res_t *r) { qlisttbl_t *t = c; if (
     else { qlisttbl_obj_t o; memset(&o, 0, sizeof o); if (t->getnext(t, &o, KS[a], false)) rb(r, t->removeobj(t, &o)); else { rb(r, 0); r->failed = 0; } } }
 static void lt_walkop(void *c, int a, int b, res_t *r) { lt_walk(c, a < 5 ? KS[a] : NULL, b, r); }
 static void lt_misc(void *c, int a, int b, res_t *r) { qlisttbl_t *t = c; (void)b; switch (a) { case 0: rn(r, t->size(t), 0); break; case 1: t->sort(t); rb(r, 1); break; case 2: t->clear(t); rb(r, 1); break; case 3: rb(r, t->debug(t, NULL)); r->failed = 0; break; case 4: rb(r, t->debug(t, devnull)); break; case 5: t->lock(t); t->unlock(t); rb(r, 1); break;
-    case 6: rb(r, t->save(t, NULL, '=', true)); r->failed = 0; break; case 7: rb(r, t->save(t, lt_path, '=', true)); break; case 8: rn(r, t->load(t, "/nonexistent/dir/file", '=', true), 0); break; case 9: { ssize_t n = t->load(t, lt_loadpath, '=', true); rn(r, n, n < 0); break; } } }
+    case 6: rb(r, t->save(t, NULL, '=', true)); r->failed = 0; break; case 7: {   /* the result of a save is the file: its text after the '# path date' header line is part of the observation */
+        unlink(lt_path); bool ok = t->save(t, lt_path, '=', true); rb(r, ok);
+        if (ok) { static char fb[4096]; int fd = open(lt_path, O_RDONLY); ssize_t n = fd >= 0 ? read(fd, fb, sizeof fb - 1) : -1; if (fd >= 0) close(fd);
+            if (n < 0) strcpy(r->s, "true, no file"); else { fb[n] = 0; char *body = fb[0] == '#' && strchr(fb, '\n') ? strchr(fb, '\n') + 1 : fb; for (char *q = body; *q; q++) if (*q == '\n') *q = '|'; snprintf(r->s, sizeof r->s, "true file[%.150s]", body); } }
+        break; } case 8: rn(r, t->load(t, "/nonexistent/dir/file", '=', true), 0); break; case 9: { ssize_t n = t->load(t, lt_loadpath, '=', true); rn(r, n, n < 0); break; } } }
 static void lt_suffix(void *c, char *out) { qlisttbl_t *t = c; res_t r; char *p = out; p += sprintf(p, "%d%d", t->putstr(t, "n", "nv"), t->putstr(t, "a", "a3")); for (int i = 0; i < 5; i++) { char *s = t->getstr(t, KS[i], true); p += sprintf(p, "%s,", s ? s : "-"); free(s); } p += sprintf(p, "%zu", t->remove(t, "b")); lt_walk(t, NULL, 1, &r); p += sprintf(p, "[%s]", r.s); lt_digest(t, p); }
 static fop_t LT_OPS[96]; static int LT_NOPS;
 static void lt_build(void) {
